@@ -885,6 +885,9 @@ class _NS:
     def __init__(self, **kw):
         self.__dict__.update(kw)
 
+    def __repr__(self):
+        return "(" + ", ".join(f"{k}={v!r}" for k, v in self.__dict__.items()) + ")"
+
 
 def from_dotbracket_fact(chk, rule: str = "from-db-fact") -> Optional[str]:
     """BpSeq.from_dotbracket(db): entry t (0-based) is (t+1, the letter of position t unchanged, partner+1 or 0)."""
@@ -1838,4 +1841,144 @@ def fill_fact(chk) -> Optional[str]:
         chk.ok("fill-width", fi.where, "the notation has one character per residue of self.sequence (evaluated)")
         chk.ok("fill-result", fi.where, "the result is a DotBracket of self.sequence and the written structure (evaluated)")
         chk.ok("alphabet-agree", fi.where, "level k is written with the k-th of the statement's 30 bracket types and the library's own decoder reads every such notation back as the stems' pairs (evaluated)")
+    return None
+
+
+# ---------------------------------------------------------------------------------------------------------------------
+# decoder and text forms (C01)
+
+
+def decode_ref(structure: str) -> Optional[List[Tuple[int, int]]]:
+    stacks: Dict[str, List[int]] = {c: [] for c in REF_OPEN}
+    close = dict(zip(REF_CLOSE, REF_OPEN))
+    out = []
+    for i, c in enumerate(structure):
+        if c in stacks:
+            stacks[c].append(i)
+        elif c in close:
+            if not stacks[close[c]]:
+                return None
+            out.append((stacks[close[c]].pop(), i))
+    if any(stacks.values()):
+        return None
+    return sorted(out)
+
+
+def decoder_fact(chk) -> Optional[str]:
+    """DotBracket.__post_init__ on every balanced notation of <= 5 characters over two bracket types and on a notation
+    using all 30 types: one LIFO stack per type - each closing character is paired with the most recent unmatched opening
+    character of its own type."""
+    repo = chk.repo
+    fi = repo.func(MOD, "DotBracket.__post_init__")
+    chk.note_function(fi)
+    it = Interp(repo, MOD)
+    cases = [""]
+    for n in range(1, 6):
+        for t in itertools.product(".()[]", repeat=n):
+            s = "".join(t)
+            if decode_ref(s) is not None:
+                cases.append(s)
+    cases.append(REF_OPEN + ".." + REF_CLOSE[::-1])
+    cases.append("".join(o + c for o, c in zip(REF_OPEN, REF_CLOSE)))
+    cases.append("((AA..aa))..<<>>{.}")
+    problem = None
+    try:
+        dbc = it.class_ref("DotBracket")
+        for s in cases:
+            kind, val = attempt(lambda: dbc("N" * len(s), s))
+            want = decode_ref(s)
+            if kind != "value":
+                problem = problem or (site_of(fi, getattr(val, "lineno", None)), f"decoding the balanced notation `{s}` {'raises ' + str(val) if kind == 'raise' else 'does not finish'}", want, None)
+                continue
+            try:
+                got = sorted(tuple(p) for p in val._attrs.get("pairs"))
+            except Exception:
+                got = None
+            if got != want and problem is None:
+                why = ""
+                if got is not None and want is not None and len(got) == len(want) and sorted(x for p in got for x in p) == sorted(x for p in want for x in p):
+                    why = ": the same positions are paired differently - a closing character is not matched with the most recent unmatched opening character of its own type (one LIFO stack per bracket type)"
+                elif got is not None and want is not None and len(got) < len(want):
+                    why = ": pairs are lost (a bracket type is not decoded, or the scan stops early)"
+                problem = (fi.where, f"the notation `{s}` is decoded as {got}, not as {want}{why}", want, got)
+    except NotEvaluable as ex:
+        return str(ex)
+    if not problem:
+        gap = reached_all(repo, it.cov, [fi])
+        if gap:
+            return gap
+    if problem:
+        chk.violation("decoder-fact", problem[0], problem[1], K(fi, "decode"), expected=problem[2], found=problem[3])
+    else:
+        chk.ok("decoder-fact", fi.where, f"evaluated on {len(cases)} balanced notations (every one of <= 5 characters over two bracket types, all 30 types nested and side by side): every closing character is paired with the most recent unmatched opening character of its type, every position is scanned")
+    return None
+
+
+def text_forms_fact(chk) -> Optional[str]:
+    """BPSEQ text <-> entries, sequence, DotBracket.from_string, MultiStrandDotBracket.from_string on the classes of their input text."""
+    repo = chk.repo
+    fs = repo.func(MOD, f"{CLS}.from_string")
+    st = repo.func(MOD, f"{CLS}.__str__")
+    sq = repo.func(MOD, f"{CLS}.sequence")
+    ds = repo.func(MOD, "DotBracket.from_string")
+    ms = repo.func(MOD, "MultiStrandDotBracket.from_string")
+    for f in (fs, st, sq, ds, ms):
+        chk.note_function(f)
+    it = Interp(repo, MOD)
+    it.override_ctor("Entry", E)
+    it.override_ctor(CLS, Built)
+    problems: Dict[str, Tuple[str, str, str, Any, Any]] = {}
+    try:
+        # from_string: one entry per line with three fields, in order; blank lines and lines without three fields are skipped
+        texts = [
+            ("1 A 3\n2 c 0\n3 U 1\n", [(1, "A", 3), (2, "c", 0), (3, "U", 1)]),
+            ("\n  1 A 3  \n\n2\tC\t0\n3 U 1", [(1, "A", 3), (2, "C", 0), (3, "U", 1)]),
+            ("1 A 0\nthis line has four fields\n2 G\n3 U 0\n", [(1, "A", 0), (3, "U", 0)]),
+            ("12 g 104\n13 n 0\n104 c 12\n", [(12, "g", 104), (13, "n", 0), (104, "c", 12)]),
+            ("", []),
+        ]
+        for text, want in texts:
+            kind, val = attempt(lambda: it.call_member(it.instance(CLS), "from_string", text))
+            got = [tuple(e) for e in val.entries] if kind == "value" and isinstance(val, Built) else None
+            if kind != "value" or got != want:
+                problems.setdefault("parse", ("bpseq-text", fs.where, f"BpSeq.from_string({text!r}) gives {got if kind == 'value' else str(val)}, not one Entry(int(index), letter, int(pair)) per three-field line in order", want, got))
+        # __str__ and sequence
+        ents = [E(1, "A", 3), E(2, "c", 0), E(3, "U", 1), E(14, "n", 0)]
+        recv = it.instance(CLS, attrs={"entries": ents})
+        kind, val = attempt(lambda: it.call_member(recv, "__str__"))
+        if kind != "value" or val != "1 A 3\n2 c 0\n3 U 1\n14 n 0":
+            problems.setdefault("str", ("bpseq-text", st.where, f"str(bpseq) is {val!r}, not `index letter pair` per entry joined by newlines", "1 A 3\n2 c 0\n3 U 1\n14 n 0", val if kind == "value" else str(val)))
+        kind, val = attempt(lambda: it.call_member(recv, "sequence"))
+        if kind != "value" or val != "AcUn":
+            problems.setdefault("sequence", ("bpseq-sequence", sq.where, f"BpSeq.sequence is {val!r}, not the entries' letters in order", "AcUn", val if kind == "value" else str(val)))
+        # DotBracket.from_string refuses different lengths
+        kind, val = attempt(lambda: it.call_member(it.instance("DotBracket"), "from_string", "ACGU", "(..)"))
+        if kind != "value" or db_key(val) != ("ACGU", "(..)"):
+            problems.setdefault("db", ("dotbracket-length", ds.where, f"DotBracket.from_string('ACGU', '(..)') gives {val!r}", None, None))
+        for a, b in (("ACGU", "(.)"), ("ACG", "(..)"), ("", ".")):
+            kind, val = attempt(lambda: it.call_member(it.instance("DotBracket"), "from_string", a, b))
+            if not (kind == "raise" and isinstance(val.exc, ValueError)):
+                problems.setdefault("db-len", ("dotbracket-length", ds.where, f"DotBracket.from_string({a!r}, {b!r}) {'returns ' + repr(val) if kind == 'value' else 'raises ' + str(val)}: a notation whose length differs from the sequence must be refused with ValueError", "ValueError", repr(val)))
+        # multi-strand text: strands numbered consecutively, concatenated in order
+        text = ">strand_A\nACGu\n([.)\n>strand_B\nGG-n\n.]AA\nUU\naa\n"
+        kind, val = attempt(lambda: it.call_member(it.instance("MultiStrandDotBracket"), "from_string", text))
+        ok = kind == "value" and isinstance(val, Instance) and val._attrs.get("sequence") == "ACGuGG-nUU" and val._attrs.get("structure") == "([.).]AAaa"
+        if ok:
+            strands = [(s._attrs.get("first"), s._attrs.get("last"), s._attrs.get("sequence"), s._attrs.get("structure")) for s in val._attrs.get("strands", [])]
+            ok = strands == [(1, 4, "ACGu", "([.)"), (5, 8, "GG-n", ".]AA"), (9, 10, "UU", "aa")]
+        if not ok:
+            problems.setdefault("multi", ("multistrand-text", ms.where, f"MultiStrandDotBracket.from_string does not number the strands consecutively and concatenate them in order: {val!r}"[:400], None, None))
+    except NotEvaluable as ex:
+        return str(ex)
+    if not problems:
+        gap = reached_all(repo, it.cov, [fs, st, sq, ds, ms])
+        if gap:
+            return gap
+    for key, (rule, site, msg, want, got) in problems.items():
+        chk.violation(rule, site, msg, f"{MOD}:text:{key}", expected=want, found=got)
+    if not problems:
+        chk.ok("bpseq-text", fs.where, "evaluated: a BPSEQ line 'i c j' becomes Entry(int(i), c, int(j)), lines in order, blank / malformed lines skipped; str() writes them back")
+        chk.ok("bpseq-sequence", sq.where, "evaluated: sequence = the entries' letters in order")
+        chk.ok("dotbracket-length", ds.where, "evaluated: a notation whose length differs from the sequence is refused")
+        chk.ok("multistrand-text", ms.where, "evaluated: strands are numbered consecutively (first = previous last + 1) and concatenated in order")
     return None
